@@ -135,6 +135,83 @@ Proof. exists (beam_new_gen Ordinary 0 0 1 1). apply new_inv. Qed.
 Example C13_nonvacuous_units : (1:R) <> 0.
 Proof. Lra.lra. Qed.
 
+(* ---- composed with C01/C02 (Proofs/Compose_index.v): the index oracle instantiated with the generated index_along over the
+   generated crystal tables, for every built-in crystal, in-window wavelength, T in [-50, 200] C, orientation, polarization *)
+From SpdVerif Require Import Spec.CrystalTypes Spec.Published Gen.Crystals Proofs.Sellmeier Proofs.Compose_index Proofs.C13_builtin.
+
+Theorem C13_internal_not_larger_builtin : forall nm c l T theta phi p s e r M,
+  in_window c l -> temp_ok T ->
+  beam_inv s -> 0 <= e <= M -> M < PI / 2 ->
+  0 <= theta_star nm (builtin_index c l T theta phi p) s e <= PI / 2 ->
+  snell_cost_gen (builtin_index c l T theta phi p) s e (theta_star nm (builtin_index c l T theta phi p) s e) <= r ->
+  sin (b_theta (set_theta_external_gen (snell_inv_of nm (builtin_index c l T theta phi p)) s e)) <= sin e + r.
+Proof. exact internal_not_larger_builtin. Qed.
+
+Theorem C13_waist_position_builtin : forall c l T theta phi p L,
+  in_window c l -> temp_ok T ->
+  let nz := crystal_index c l T theta phi (0, 0, 1) p in
+  optimal_waist_position_gen L (builtin_index c l T theta phi p) = - L / (2 * nz) /\
+  1 < nz < 4 /\
+  (0 < L -> - L / 2 < optimal_waist_position_gen L (builtin_index c l T theta phi p) < - L / 8).
+Proof. exact waist_position_builtin. Qed.
+
+Theorem C13_snell_forward_builtin : forall c l T theta phi p s theta_i,
+  in_window c l -> temp_ok T -> Rabs (sin theta_i) <= / 4 ->
+  sin (calc_external_theta_from_internal_gen (builtin_index c l T theta phi p) s theta_i) =
+  crystal_index c l T theta phi (normalize (polar_dir (b_phi s) theta_i)) p * sin theta_i.
+Proof. exact snell_forward_builtin. Qed.
+
+(* ---- the Snell inversion WITHOUT an oracle: grpE's executable model of argmin's two-vertex Nelder-Mead (Model/NM1d.v, theorems
+   Proofs/C04_nm.v; tied bit for bit to math::nelder_mead_1d by the PrimFloat replay cases of C04 and of this check) instantiated over
+   the reals with the generated cost, seeds (theta_e, theta_e + 1) and bounds [0, pi/2].  nm_real sd fuel: any termination test `sd`,
+   any iteration budget `fuel`. *)
+From SpdVerif Require Import Model.NM1d Proofs.C13_nm Proofs.C13_continuity.
+
+(* PROVED: the returned angle lies in [0, pi/2] and its residual is at most the residual at the seed theta_e *)
+Theorem C13_snell_nm_bounds_and_residual : forall sd fuel n_along s e,
+  0 <= e <= PI / 2 ->
+  0 <= theta_star (nm_real sd fuel) n_along s e <= PI / 2 /\
+  snell_cost_gen n_along s e (theta_star (nm_real sd fuel) n_along s e) <= snell_cost_gen n_along s e e.
+Proof. exact snell_nm_bounds_and_residual. Qed.
+
+(* PROVED (intermediate value theorem): a continuous index >= 1 along the path gives a zero of the cost in [0, theta_e]:
+   the contract `some point has residual 0` is a theorem *)
+Theorem C13_snell_root_exists : forall n_along s e,
+  0 <= e <= PI / 2 ->
+  (forall t, 0 <= t <= e -> continuity_pt (fun u => n_along (normalize (polar_dir (b_phi s) u))) t) ->
+  1 <= n_along (normalize (polar_dir (b_phi s) e)) ->
+  exists t, 0 <= t <= e /\ snell_cost_gen n_along s e t = 0.
+Proof. exact snell_root_exists. Qed.
+
+(* both for the built-in crystals: continuity of the Fresnel index along the path and n > 1 are discharged *)
+Theorem C13_snell_root_exists_builtin : forall c l T theta phi p s e,
+  in_window c l -> temp_ok T -> 0 <= e <= PI / 2 ->
+  exists t, 0 <= t <= e /\ snell_cost_gen (builtin_index c l T theta phi p) s e t = 0.
+Proof. exact snell_root_exists_builtin. Qed.
+
+Theorem C13_snell_nm_builtin : forall sd fuel c l T theta phi p s e,
+  in_window c l -> temp_ok T -> 0 <= e <= PI / 2 ->
+  let n_along := builtin_index c l T theta phi p in
+  let star := theta_star (nm_real sd fuel) n_along s e in
+  0 <= star <= PI / 2 /\
+  snell_cost_gen n_along s e star <= (n_along (normalize (polar_dir (b_phi s) e)) - 1) * sin e.
+Proof. exact snell_nm_builtin. Qed.
+
+(* round trip with the optimiser modelled.  PARTIAL: what remains a checked contract is convergence — that the residual r
+   reached within the 100 iterations is <= 3e-8 (then the read-back is within 1e-5 deg by C13_snell_roundtrip_80deg_partial) *)
+Theorem C13_snell_roundtrip_model_partial : forall sd fuel n_along s e r M,
+  beam_inv s -> 0 <= e <= M -> M < PI / 2 ->
+  snell_cost_gen n_along s e (theta_star (nm_real sd fuel) n_along s e) <= r ->
+  sin e + r <= sin M ->
+  let s' := set_theta_external_gen (snell_inv_of (nm_real sd fuel) n_along) s e in
+  0 <= b_theta s' <= PI / 2 /\
+  Rabs (sin e - n_along (normalize (polar_dir (b_phi s) (b_theta s'))) * sin (b_theta s')) <= r /\
+  Rabs (theta_external_gen n_along s' - e) <= r / cos M.
+Proof. exact snell_roundtrip_model. Qed.
+
+Example C13_builtin_nonvacuous : in_window KTP 1.55 /\ temp_ok 20 /\ Rabs (sin 0) <= / 4.
+Proof. rewrite sin_0, Rabs_R0. unfold in_window, temp_ok; cbn. repeat split; Lra.lra. Qed.
+
 Print Assumptions C13_invariant.
 Print Assumptions C13_direction_unit.
 Print Assumptions C13_congruent.
@@ -150,3 +227,11 @@ Print Assumptions C13_units_temperature.
 Print Assumptions C13_units_fwhm.
 Print Assumptions C13_beam_wavelength_frequency.
 Print Assumptions C13_waist_position.
+Print Assumptions C13_internal_not_larger_builtin.
+Print Assumptions C13_waist_position_builtin.
+Print Assumptions C13_snell_forward_builtin.
+Print Assumptions C13_snell_nm_bounds_and_residual.
+Print Assumptions C13_snell_root_exists.
+Print Assumptions C13_snell_root_exists_builtin.
+Print Assumptions C13_snell_nm_builtin.
+Print Assumptions C13_snell_roundtrip_model_partial.
